@@ -188,6 +188,57 @@ fn run_in_struct(prot: Prot, v: &Val) -> Result<(), (String, String)> {
     }
 }
 
+/// the same in-struct sequence through the async readers: a skipped value must leave the reader's
+/// field-id context (compact) exactly as a decoded one would
+fn run_in_struct_async(prot: Prot, mode: Mode, v: &Val) -> Result<(), (String, String)> {
+    let outer = Val::Struct(vec![(10, v.clone()), (11, Val::I8(5))]);
+    let bytes = rc::encode(prot.wire(), &outer);
+    let (script, shared) = Script::new(bytes, mode, std::ptr::null_mut());
+    let res = catch(|| {
+        macro_rules! go {
+            ($p:expr) => {{
+                let mut p = $p;
+                aio::block_on(
+                    async {
+                        p.read_struct_begin().await?;
+                        let f = p.read_field_begin().await?;
+                        if f.id != Some(10) {
+                            return Ok(Err(("in-struct-first-field".to_string(), format!("{:?}", f))));
+                        }
+                        p.skip(f.field_type).await?;
+                        p.read_field_end().await?;
+                        let f2 = p.read_field_begin().await?;
+                        if f2.id != Some(11) || f2.field_type != pilota::thrift::TType::I8 {
+                            return Ok(Err(("in-struct-next-field".to_string(), format!("next field read as {:?}", f2))));
+                        }
+                        let x = p.read_i8().await?;
+                        p.read_field_end().await?;
+                        let f3 = p.read_field_begin().await?;
+                        if x != 5 || f3.field_type != pilota::thrift::TType::Stop {
+                            return Ok(Err(("in-struct-next-value".to_string(), format!("value {} then {:?}", x, f3))));
+                        }
+                        p.read_struct_end().await?;
+                        Ok::<_, ThriftException>(Ok(()))
+                    },
+                    &shared,
+                )
+            }};
+        }
+        match prot {
+            Prot::Binary => go!(binary::TAsyncBinaryProtocol::new(script)),
+            Prot::BinaryLe => go!(binary_le::TAsyncBinaryProtocol::new(script)),
+            Prot::Compact => go!(compact::TAsyncCompactProtocol::new(script)),
+            Prot::Unsafe => unreachable!(),
+        }
+    });
+    match res {
+        Caught::Ok(Ok(Ok(x))) => x,
+        Caught::Ok(Ok(Err(e))) => Err(("in-struct-err".into(), format!("{}:{}", err_class(&e), e.message()))),
+        Caught::Ok(Err(x)) => Err(("in-struct-executor".into(), format!("{:?}", x))),
+        Caught::Panic(loc, msg) => Err((format!("in-struct-{}", panic_sig(&loc, &msg)), msg)),
+    }
+}
+
 fn readers(thorough: bool) -> Vec<Reader> {
     let mut v: Vec<Reader> = ALL_PROT.iter().map(|p| Reader::Sync(*p)).collect();
     for p in [Prot::Binary, Prot::BinaryLe, Prot::Compact] {
@@ -245,6 +296,20 @@ fn check_value(col: &mut Collector, v: &Val, thorough: bool, trailers: &[u8]) {
                 Obs::Exec(x) => {
                     col.outcome("exec");
                     col.fail(format!("C07|{}|executor:{}", r.name(), x), case(), x.clone());
+                }
+            }
+        }
+        if let Reader::Async(prot, mode) = r {
+            col.evaluations += 1;
+            match run_in_struct_async(prot, mode, v) {
+                Ok(()) => col.outcome("ok-in-struct"),
+                Err((sig, detail)) => {
+                    col.outcome("in-struct-fail");
+                    col.fail(
+                        format!("C07|{}|{}:{}", r.name(), sig, v.ty().short()),
+                        json!({"kind": "in-struct", "val": v, "reader": r.name(), "show": v.show()}),
+                        detail,
+                    );
                 }
             }
         }
